@@ -161,6 +161,7 @@ SOURCES = {
     'C11': ('flatten', 'flatdir', 'sim'),
     'C03': ('hist', 'plothist', 'sim'),
     'C08': ('kinds', 'export', 'sim'),
+    'C18': ('drawkinds', 'drawhist', 'drawnest'),
     'C15': ('kinds', 'export', 'qldir'),
 }
 
@@ -211,7 +212,7 @@ def programs_for(pid, tier, seed):
       keep=lambda p: any(s['a'] == 'AddSub' for s in p) and p[-1]['a'] == 'AddOp' and p[-1]['link']['k'] == 'one')
     # (2d) every operation class in every position (first, implicit successor, explicit FB/JS/JE, referenced by a later
     #      operation), then copied by each route: explicit copy, nesting, unrolling
-    if 'kinds' in want or 'export' in want:
+    if 'kinds' in want or 'export' in want or 'drawkinds' in want:
         menu, _templates = kinds_menu()
         anchor = gen.leaf('Wait', [0], [[0, 'ALL']], ['fixed', 4])
         anchors = [anchor]
@@ -228,6 +229,11 @@ M_Init == /\\ heap = DoNewCircuit(DoAddOp(DoNewCircuit(<<>>, "n1", NoLink, <<"fi
           cap=2500 if quick else 30000,
           keep=lambda p: p[-1]['a'] in ('AddSub', 'CopyCirc', 'Apply') and any(s['a'] == 'AddOp' and s['m']['kind'] != 'Wait' for s in p)
           and sum(1 for s in p if s['a'] in ('AddSub', 'CopyCirc', 'Apply')) == 1)
+        # (2d'') every operation class drawn (compact and non-compact, various channel orders / label maps) in every position
+        g('drawkinds', menu + anchors, anchors=anchors, max_non_anchor=1, reps=[('fixed', 1)], linktypes=('FB', 'JS'), configs=(gen.DEFAULT_CFG, CFG_A),
+          acts=('AddOp', 'Obs'), obskinds=('draw', 'drawnc'), max_circs=2, max_objs=7, max_steps=6, workers=8, min_emit=5, timeout=100, init_defs=init,
+          cap=1500 if quick else 20000,
+          keep=lambda p: any(s['a'] == 'Obs' for s in p) and any(s['a'] == 'AddOp' and s['m']['kind'] != 'Wait' for s in p[3:]))
         # (2d') every operation class (supported and unsupported by the exporters), nested, repeated, unrolled: simulation
         g('export', menu, reps=[('fixed', 1), ('fixed', 2), ('fixed', 3)], acts=('NewCircuit', 'AddOp', 'AddSub', 'Apply'), linktypes=('FB',),
           max_circs=3, max_objs=14, max_steps=10, simulate='num=%d' % (14 if quick else 600), depth=11, min_emit=5, one_in=4,
@@ -277,6 +283,18 @@ M_Init == /\\ heap = DoNewCircuit(DoAddOp(DoNewCircuit(<<>>, "n1", NoLink, <<"fi
       configs=(gen.DEFAULT_CFG, CFG_A), acts=('NewCircuit', 'AddOp', 'Enter', 'Leave', 'Obs'), linktypes=(), max_circs=1, max_objs=5,
       max_steps=7, obskinds=('plot', 'plotnc'), workers=8, min_emit=4, timeout=120, cap=1500 if quick else 20000,
       keep=lambda p: any(s['a'] == 'Obs' for s in p) and any(s['a'] == 'Enter' for s in p))
+    # (2j) drawing inside / outside overrides, with mutations after the drawing (purity), tiny alphabet, exhaustive
+    g('drawhist', [gen.leaf('Rx180', [0], [[0, 'MICROWAVE']], ['global', 'MW']), gen.leaf('Barrier', [0, 1], [[0, 'ALL'], [1, 'ALL']], ['fixed', 2]),
+                   gen.leaf('DispersiveMeasure', [2], [[2, 'READOUT']], ['global', 'RO'])],
+      configs=(gen.DEFAULT_CFG, CFG_A), acts=('NewCircuit', 'AddOp', 'Enter', 'Leave', 'Obs'), linktypes=('FB',), max_circs=1, max_objs=4,
+      max_steps=6, obskinds=('draw', 'drawnc'), workers=8, min_emit=4, timeout=120, cap=1500 if quick else 20000,
+      keep=lambda p: any(s['a'] == 'Obs' for s in p))
+    # (2k) drawing nested / repeated circuits (highlights of repeated blocks), before and after unrolling
+    g('drawnest', [gen.leaf('Rx180', [0], [[0, 'MICROWAVE']], ['global', 'MW']), gen.leaf('CPhase', [0, 1], [[0, 'FLUX'], [0, 'MICROWAVE'], [1, 'FLUX'], [1, 'MICROWAVE']], ['global', 'FL']),
+                   gen.leaf('DispersiveMeasure', [1], [[1, 'READOUT']], ['global', 'RO'])],
+      reps=[('fixed', 1), ('fixed', 2)], acts=('NewCircuit', 'AddOp', 'AddSub', 'Apply', 'Obs'), linktypes=(), max_circs=2, max_objs=9,
+      max_steps=8, obskinds=('draw',), simulate='num=%d' % (300 if quick else 5000), depth=9, min_emit=4, one_in=2, timeout=120, cap=800 if quick else 10000,
+      keep=lambda p: any(s['a'] == 'Obs' for s in p) and any(s['a'] == 'AddSub' for s in p))
     # (3) simulation: long programs over the full alphabet, overrides, registry durations, copies, unrolling
     full = waits(Q3, chans=('ALL', 'MICROWAVE', 'FLUX'), durs=(0, 2, 6), reg=True) + gates(Q3) + meas(Q3) + two(Q3)
     g('sim', full, reps=[('fixed', 1), ('fixed', 2), ('fixed', 3), ('reg', 'r1')], configs=(gen.DEFAULT_CFG, CFG_A, CFG_B),
@@ -348,7 +366,7 @@ def counts_for(pid, clause, trace):
         return True
     if clause.startswith('C00.'):
         err = next((e for e in trace if e['ev'] == 'Error'), None)
-        if err and err['a'].startswith('Obs:plot'):
+        if err and (err['a'].startswith('Obs:plot') or err['a'].startswith('Obs:draw')):
             return pid == 'C18'         # drawing must succeed: judged by C18
         if err and err['a'] == 'Obs:stim':
             return pid == 'C08'
@@ -373,6 +391,7 @@ NONTRIVIAL.update({
     'C07': lambda p: sum(1 for s in p if s['a'] == 'AddOp' and s['m']['kind'] == 'DispersiveMeasure') >= 2,
     'C11': lambda p: any(s['a'] == 'Flatten' for s in p) and any(s['a'] == 'AddSub' for s in p),
     'C03': lambda p: any(s['a'] == 'Obs' for s in p[:-1]),
+    'C18': lambda p: any(s['a'] == 'Obs' for s in p) and sum(1 for s in p if s['a'] == 'AddOp') >= 2,
     'C15': lambda p: sum(1 for s in p if s['a'] == 'AddOp') >= 2,
     'C08': lambda p: any(s['a'] == 'AddSub' for s in p) and sum(1 for s in p if s['a'] == 'AddOp') >= 2,
 })
@@ -386,6 +405,7 @@ RULES = {
     'C11': 'a nested program is flattened',
     'C03': 'at least one observation before the end of the history',
     'C08': 'a nested block and >= 2 operations',
+    'C18': 'a drawing of a circuit with >= 2 operations',
     'C15': '>= 2 operations',
 }
 
@@ -417,8 +437,8 @@ def run(pid, tier):
             v.fail(f['clause'], {'trace': ti, 'event': f['l'], 'obj': f['obj'], 'info': f['info']},
                    signature=signature(f, ev, traces[ti], programs[ti]), replay={'program': programs[ti]})
     twin_stats = {}
-    if pid == 'C03':
-        twin_stats = erasure(v, programs, traces)
+    if pid in ('C03', 'C18'):
+        twin_stats = erasure(v, programs, traces, prefix='C18.pure' if pid == 'C18' else 'C03.erasure')
     nt = NONTRIVIAL.get(pid, lambda p: True)
     canon = set(json.dumps(p, sort_keys=True) for p in programs if nt(p))
     v.coverage.update({
@@ -502,7 +522,7 @@ def finals(trace):
     return [{'c': e['c'], 'snap': e['snap']} for e in trace if e['ev'] == 'Obs' and e.get('final')]
 
 
-def erasure(v, programs, traces):
+def erasure(v, programs, traces, prefix='C03.erasure'):
     """C03 twin runs: every history with an intermediate observation is executed again with those observations erased
     (separate process); TLC (ErasureTrace) compares the final batteries."""
     def aborted(t):
@@ -540,7 +560,7 @@ def erasure(v, programs, traces):
             elif cl in ('C03.erasure.operation', 'C03.erasure.indices', 'C03.erasure.export') and \
                     any(twin_trigger(ta, len(ta), c) for c in fa):
                 sig = 'twin-circuit-registry'
-            v.fail(cl, {'trace': i, 'obj': obj}, signature=sig, replay={'program': programs[i], 'erased': erased[f['row'] - 1]})
+            v.fail(cl.replace('C03.erasure', prefix), {'trace': i, 'obj': obj}, signature=sig, replay={'program': programs[i], 'erased': erased[f['row'] - 1]})
     return {'twin_histories': len(rows), 'tlc_states': r.distinct, 'rejected_pairs': len(res['fails'])}
 
 
